@@ -98,10 +98,13 @@ class Ctx:
         shutil.rmtree(meta, ignore_errors=True)
         # parse the non-T lines
         tail = []
+        completed = False   # (with -coverage the statistics that follow the verdict can be longer than the tail kept)
         with open(res.out_path, errors="replace") as fh:
             for line in fh:
                 if line.startswith('<<"T"'):
                     continue
+                if line.startswith("Model checking completed. No error has been found."):
+                    completed = True
                 tail.append(line)
                 if len(tail) > 400:
                     tail = tail[-200:]
@@ -115,8 +118,7 @@ class Ctx:
         txt = "".join(tail)
         if p.returncode == 124:
             res.status = "timeout"
-        elif "Model checking completed. No error has been found." in txt or \
-                (simulate and p.returncode == 0):
+        elif completed or (simulate and p.returncode == 0):
             res.status = "ok"
         elif re.search(r"Error: (Invariant|Action property|Temporal properties|Deadlock|Postcondition|The postcondition)", txt) \
                 or "is violated" in txt or "was violated" in txt:
